@@ -25,40 +25,180 @@ def _ite(c, a, b):
 
 
 class Ratio:
-    """x / c with integer x (symbolic) and concrete c: Python computes a float.  int(Ratio) is
-    modelled as truncating integer division, which is justified by the float lemma
-    int(float(x) / float(c)) == trunc(x / c) for x in the range established on the path;
-    the lemma is proved separately (props/C16: QF_BVFP bit-precise, or the standard
-    relative-error model in LIA) and its range is checked here against the path condition."""
+    """A float computed from ONE symbolic integer x by a chain of IEEE operations with concrete constants - a "float
+    island": x / c (Python's exact, correctly rounded int/int division) optionally followed by * k and / k - and
+    finally turned back into an integer by int() (truncation), round() (half-even) or math.floor().
+
+    The integer result is modelled by exact rational arithmetic, which is justified by a lemma
+        island(x) == mode(x * num / den)   for lo <= x <= hi
+    proved separately, bit-precisely, in QF_BVFP (props/C16); its range is checked here against the path condition.
+    A chain for which no lemma is known is *demanded* (recorded with the range the path establishes); the check
+    proves or refutes it and explores again.  A refuted lemma contributes its counterexample: the path on which x is
+    that value continues with the island evaluated by CPython's own float arithmetic, every other value of x is
+    reported as not covered."""
 
     _sx_symbolic = True
     _sx_types = (float,)
-    LEMMAS = {}  # c -> (lo, hi) proven
+    LEMMAS = {}  # legacy: c -> (lo, hi) proven for int(x / c)
+    PROVEN = {}  # (ops, mode) -> [(lo, hi)]
+    REFUTED = {}  # (ops, mode) -> [x0, ...]
     USED = set()
 
-    def __init__(self, x, c):
+    def __init__(self, x, c, ops=None):
         self.x, self.c = x, c
+        self.ops = ops if ops is not None else (("idiv", c),)
+
+    def _then(self, op, k):
+        if isinstance(k, bool) or not isinstance(k, (int, float)):
+            raise Unsupported(f"float island combined with {type(k).__name__}")
+        return Ratio(self.x, self.c, self.ops + ((op, k),))
+
+    def __mul__(self, k):
+        return self._then("mul", k)
+
+    __rmul__ = __mul__
+
+    def __truediv__(self, k):
+        return self._then("div", k)
+
+    # -- exact reference --------------------------------------------------------
+    def _scale(self):
+        """(num, den) of the exact rational factor, or None when a constant is not an integer"""
+        num, den = 1, 1
+        for op, k in self.ops:
+            if isinstance(k, float):
+                if not k.is_integer():
+                    return None
+                k = int(k)
+            if k == 0:
+                return None
+            if op in ("idiv", "div"):
+                den *= k
+            else:
+                num *= k
+        if den < 0:
+            num, den = -num, -den
+        from math import gcd
+        g = gcd(num, den)
+        return num // g, den // g
+
+    def _exact(self, mode):
+        from .core import int_divmod_const
+        num, den = self._scale()
+        t = self.x.e * num
+        if den == 1:
+            return SInt(t)
+        q, r = int_divmod_const(t, den)  # floor
+        if mode == "floor":
+            return SInt(q)
+        if mode == "trunc":
+            return SInt(z3.If(z3.And(t < 0, r != 0), q + 1, q))
+        # round half to even
+        par = int_divmod_const(q, 2)[1]
+        up = z3.Or(2 * r > den, z3.And(2 * r == den, par == 1))
+        return SInt(z3.If(up, q + 1, q))
+
+    def concrete(self, x0, mode):
+        """the island evaluated by CPython itself"""
+        import math
+        v = None
+        for op, k in self.ops:
+            if op == "idiv":
+                v = x0 / k
+            elif op == "mul":
+                v = v * k
+            else:
+                v = v / k
+        return {"trunc": int, "round": round, "floor": math.floor}[mode](v)
+
+    def _bounds(self):
+        """tightest [lo, hi] for x implied by the path condition (binary search, QF_LIA)"""
+        ctx = cur()
+        x = self.x.e
+        B = 1 << 63
+
+        def holds(c):
+            return ctx.check(z3.Not(c)) == z3.unsat
+        if not holds(z3.And(x >= -B, x < B)):
+            return None
+        lo, hi = -B, B - 1
+        a, b = lo, hi  # smallest hi with x <= hi
+        while a < b:
+            mid = (a + b) // 2
+            if holds(x <= mid):
+                b = mid
+            else:
+                a = mid + 1
+        hi = a
+        a, b = lo, hi
+        while a < b:
+            mid = (a + b + 1) // 2
+            if holds(x >= mid):
+                a = mid
+            else:
+                b = mid - 1
+        return a, hi
+
+    def _final(self, mode):
+        key = (self.ops, mode)
+        ctx = cur()
+        x = self.x.e
+        legacy = Ratio.LEMMAS.get(self.c) if (len(self.ops) == 1 and mode == "trunc") else None
+        ranges = list(Ratio.PROVEN.get(key, [])) + ([legacy] if legacy else [])
+        for lo, hi in ranges:
+            if ctx.check(z3.Not(z3.And(x >= lo, x <= hi))) == z3.unsat:
+                Ratio.USED.add((self.ops, mode, lo, hi))
+                return self._exact(mode)
+        for x0 in Ratio.REFUTED.get(key, []):
+            if ctx.fork(x == x0):
+                _used(f"float island {self.ops}->{mode}: differs from exact arithmetic; counterexample instance x={x0} evaluated by CPython")
+                return SInt(z3.IntVal(self.concrete(x0, mode)))
+        if key in Ratio.REFUTED:
+            raise Unsupported(f"float island {self.ops}->{mode} is not exact arithmetic; only its counterexample instance is explored")
+        if self._scale() is None:
+            raise Unsupported(f"float island {self.ops} with a non-integer constant")
+        bnd = self._bounds()
+        if bnd is None:
+            raise Unsupported(f"float island {self.ops}: x is not bounded by 64 bits on this path")
+        _demand(key, bnd)
+        if ranges:
+            lo, hi = ranges[0]
+            raise Unsupported(f"int(x / {self.c}): x not within the lemma's range [{lo}, {hi}] on this path")
+        raise Unsupported(f"no float lemma yet for {self.ops}->{mode} on [{bnd[0]}, {bnd[1]}] (demanded)")
 
     def _sx_int(self):
-        c = self.c
-        rng = Ratio.LEMMAS.get(c)
-        if rng is None:
-            raise Unsupported(f"no float-division lemma for divisor {c}")
-        lo, hi = rng
-        ctx = cur()
-        if ctx.check(z3.Not(z3.And(self.x.e >= lo, self.x.e <= hi))) != z3.unsat:
-            raise Unsupported(f"int(x / {c}): x not within the lemma's range [{lo}, {hi}] on this path")
-        Ratio.USED.add((c, lo, hi))
-        from .core import int_divmod_const
-        x = self.x.e
-        if ctx.check(x < 0) == z3.unsat:
-            return SInt(int_divmod_const(x, c)[0])
-        qn = int_divmod_const(-x, c)[0]
-        qp = int_divmod_const(x, c)[0]
-        return SInt(z3.If(x >= 0, qp, -qn))  # truncation toward zero
+        return self._final("trunc")
+
+    def _sx_round(self):
+        return self._final("round")
+
+    def _sx_floor(self):
+        return self._final("floor")
 
     def __float__(self):
         raise Unsupported("float value of a symbolic ratio")
+
+
+def _demand(key, bnd):
+    import json, os
+    p = os.environ.get("VF_DEMANDS")
+    if not p:
+        return
+    ops, mode = key
+    with open(p, "a") as f:
+        f.write(json.dumps(dict(ops=[list(o) for o in ops], mode=mode, lo=bnd[0], hi=bnd[1])) + "\n")
+
+
+def m_round(x, nd=None):
+    if isinstance(x, Ratio):
+        if nd is not None:
+            raise Unsupported("round(float island, ndigits)")
+        return x._sx_round()
+    if isinstance(x, SInt) and nd is None:
+        return x
+    if is_sym(x):
+        raise Unsupported(f"round() of {type(x).__name__}")
+    return round(x) if nd is None else round(x, nd)
 
 
 def _truediv(self, o):
@@ -91,6 +231,10 @@ class STimedelta:
 
     def __radd__(self, o):
         return SDatetime.lift(o) + self
+
+    def total_seconds(self):
+        _used("timedelta.total_seconds() = total microseconds / 10**6 (exact int/int division, correctly rounded)")
+        return Ratio(self.us, 10**6)
 
 
 class SDate:
@@ -251,6 +395,8 @@ def m_str(x="", *a):
     f = getattr(x, "_sx_str", None)
     if callable(f):
         return f()
+    if f is True:
+        return x
     if is_sym(x):
         raise Unsupported(f"str() of {type(x).__name__}")
     return str(x, *a)
@@ -320,8 +466,9 @@ CALL_MODELS.update({
     id(_time.mktime): m_mktime,
     id(_uuid.UUID): m_UUID,
     id(str): m_str,
+    id(round): m_round,
 })
-_KEEP.extend([_dt.timedelta, _dt.time, _time.mktime, _uuid.UUID, str])
+_KEEP.extend([_dt.timedelta, _dt.time, _time.mktime, _uuid.UUID, str, round])
 
 def m_from_bytes(data, byteorder="big", *, signed=False):
     _used("int.from_bytes (big/little endian, signed/unsigned)")
